@@ -469,6 +469,12 @@ def r08_9(ctx, prog, crate):
     r06_5(Renamed(ctx, "R08.9"), prog, crate)
 
 
+def run_extra(ctx):
+    """R08.10 no output is dropped before the end barrier, macro side: see C12.bench_closure_returns_value."""
+    from . import C12
+    C12.bench_closure_returns_value(ctx, "R08.10")
+
+
 def run(ctx, prog, crate):
     r08_9(ctx, prog, crate)
     r08_8(ctx, prog, crate)
